@@ -386,6 +386,14 @@ func Check(s *Scenario, res *Result) *Report {
 			res.AtShutdownReturn, len(res.Writes), len(res.Writes)-res.AtShutdownReturn, res.Writes[res.AtShutdownReturn].Text)
 	}
 
+	// Bounded liveness of the free-running writer: after SilenceUs without any log call everything that was logged
+	// has been handed to the adapter; a line that only comes out because Shutdown drains the buffer was stuck (a lost
+	// wake-up of the writer). The bound is two hundred times the writer's own 10 ms pause.
+	if s.Sched == "free" && s.Stutter == nil && s.PreShutdownSleepUs >= SilenceUs && res.AtShutdownCall != len(res.Writes) {
+		rep.violate("free-running writer: %d of %d adapter calls happened only during Shutdown although nothing had been logged for %d ms before it (first such line: %q): the line stayed in the buffer until the shutdown drain",
+			len(res.Writes)-res.AtShutdownCall, len(res.Writes), s.PreShutdownSleepUs/1000, res.Writes[res.AtShutdownCall].Text)
+	}
+
 	exps := expect(s)
 	for _, e := range exps {
 		rep.Must += e.must
